@@ -5,6 +5,8 @@ import (
 	"io"
 	"os"
 	"sync"
+
+	"github.com/hydraide/hydraide/app/verifhook"
 )
 
 // FileWriter handles append-only writes to a .hyd file.
@@ -85,6 +87,9 @@ func NewFileWriterWithName(filePath string, maxBlockSize int, swampName string) 
 // If swampName is set, creates a V3 file with the name stored after the header.
 // Otherwise creates a V3 file with NameLength=0.
 func (fw *FileWriter) createNewFile() error {
+	if err := verifhook.FileOp("create", nil, fw.filePath, nil); err != nil {
+		return err
+	}
 	file, err := os.Create(fw.filePath)
 	if err != nil {
 		return err
@@ -98,6 +103,10 @@ func (fw *FileWriter) createNewFile() error {
 	fw.header.NameLength = uint16(len(nameBytes))
 
 	// Write header
+	if err := verifhook.FileOp("write", file, fw.filePath, fw.header.Serialize()); err != nil {
+		file.Close()
+		return err
+	}
 	if _, err := file.Write(fw.header.Serialize()); err != nil {
 		file.Close()
 		return err
@@ -105,6 +114,10 @@ func (fw *FileWriter) createNewFile() error {
 
 	// V3: write swamp name bytes after header
 	if len(nameBytes) > 0 {
+		if err := verifhook.FileOp("write", file, fw.filePath, nameBytes); err != nil {
+			file.Close()
+			return err
+		}
 		if _, err := file.Write(nameBytes); err != nil {
 			file.Close()
 			return err
@@ -210,11 +223,17 @@ func (fw *FileWriter) flushLocked() error {
 	}
 
 	// Write block header
+	if err := verifhook.FileOp("write", fw.file, fw.filePath, header.Serialize()); err != nil {
+		return err
+	}
 	if _, err := fw.file.Write(header.Serialize()); err != nil {
 		return err
 	}
 
 	// Write compressed data
+	if err := verifhook.FileOp("write", fw.file, fw.filePath, compressed); err != nil {
+		return err
+	}
 	if _, err := fw.file.Write(compressed); err != nil {
 		return err
 	}
@@ -233,6 +252,9 @@ func (fw *FileWriter) flushLocked() error {
 		return err
 	}
 	if _, err := fw.file.Seek(0, io.SeekStart); err != nil {
+		return err
+	}
+	if err := verifhook.FileOp("write", fw.file, fw.filePath, fw.header.Serialize()); err != nil {
 		return err
 	}
 	if _, err := fw.file.Write(fw.header.Serialize()); err != nil {
@@ -268,6 +290,9 @@ func (fw *FileWriter) Sync() error {
 		return err
 	}
 
+	if err := verifhook.FileOp("write", fw.file, fw.filePath, fw.header.Serialize()); err != nil {
+		return err
+	}
 	if _, err := fw.file.Write(fw.header.Serialize()); err != nil {
 		return err
 	}
@@ -278,6 +303,9 @@ func (fw *FileWriter) Sync() error {
 	}
 
 	// Sync to disk
+	if err := verifhook.FileOp("sync", fw.file, fw.filePath, nil); err != nil {
+		return err
+	}
 	return fw.file.Sync()
 }
 
@@ -306,6 +334,10 @@ func (fw *FileWriter) Close() error {
 		return err
 	}
 
+	if err := verifhook.FileOp("write", fw.file, fw.filePath, fw.header.Serialize()); err != nil {
+		fw.file.Close()
+		return err
+	}
 	if _, err := fw.file.Write(fw.header.Serialize()); err != nil {
 		fw.file.Close()
 		return err
@@ -315,12 +347,17 @@ func (fw *FileWriter) Close() error {
 	// idle-eviction Close leaves the just-flushed block in the OS page cache;
 	// a power loss within the page-cache window would still lose data the
 	// caller already saw a successful Save response for.
+	if err := verifhook.FileOp("sync", fw.file, fw.filePath, nil); err != nil {
+		fw.file.Close()
+		return err
+	}
 	if err := fw.file.Sync(); err != nil {
 		fw.file.Close()
 		return err
 	}
 
 	fw.closed = true
+	verifhook.FileOp("close", fw.file, fw.filePath, nil)
 	return fw.file.Close()
 }
 
